@@ -12,10 +12,10 @@ TECHNIQUE = ("runtime monitoring of the real connect_coding_graph / latter_map_t
              "greatest-fixed-point + backward-reachability oracle; exhaustive over all 65 536 order-2 masks x 4 thresholds; "
              "loop clock on the generator's while-loops, read-only trap and digests on the mask")
 LEVEL_TEXT = ("Exhaustive for k = 2 (every mask x t = 1..4 x dtype bool / int64); "
-              "sampled for k = 1, 3, 4 (5 in thorough) incl. masks built around information-free cycles. The oracle is exact "
+              "sampled for k = 1, 3, 4 and a few graphs of order 5 and 6 per shard incl. masks built around information-free cycles. The oracle is exact "
               "(the union of closed sets is closed), so equality is demanded.")
 LEVEL_NOTE = "Trusts the 25-line fixed-point oracle in vlib/graphs.py (Python sets)."
-PLAN = {"quick": dict(shards=16, budget=60), "thorough": dict(shards=32, budget=500)}
+PLAN = {"quick": dict(shards=16, budget=120), "thorough": dict(shards=32, budget=600)}
 EXHAUSTIVE = ["k=2: all 65536 masks x t=1..4"]
 RULE = ("connect_coding_graph(k, mask, t) for every order-2 mask x t in 1..4, random masks of density 0.2..0.98 for k = 1,3,4(,5), "
         "masks from LocalBioFilter settings, and masks seeded with an information-free cycle of length 1..6 plus a chain "
@@ -70,8 +70,9 @@ def generate(ctx):
                 yield "generate", dict(k=2, mask="%x" % m, t=t, dtype="bool" if (m + t) % 2 else "int64", fam="exhaustive")
     ctx.exhausted[EXHAUSTIVE[0]] = True
     ks = ctx.pick([1, 3, 3, 4], [1, 3, 3, 4, 4, 5])
-    for _ in range(ctx.pick(300, 3000)):
-        k = rng.choice(ks)
+    n_big = ctx.pick(2, 12)   # a few graphs of the orders 5 and 6 in every shard
+    for it in range(ctx.pick(300, 3000)):
+        k = rng.choice(ks) if it >= n_big else rng.choice([5, 6])
         fam = rng.choice(["random", "random", "cycle", "cycle", "filter", "nearfull"])
         if fam == "random":
             mask = gens.rand_mask(rng, k, rng.choice([0.2, 0.4, 0.6, 0.75, 0.9, 0.98]))
